@@ -123,8 +123,15 @@ def coq_of(e, opidx, idnum):
 def shape_of_ast(node, names):
     """implementation AST -> python tree (None if a node kind outside the fragment appears)"""
     from mindsdb_sql.parser.ast import Identifier, BinaryOperation, UnaryOperation, BetweenOperation
+    from mindsdb_sql.parser.ast import Constant
     if isinstance(node, Identifier):
         r = ('atom', node.parts[-1] if node.parts else '?')
+    elif type(node) is Constant and isinstance(node.value, int) and not isinstance(node.value, bool) and names.get('__numbers__'):
+        # numeric operands (only where asked for): 101 stands for atom a, 102 for b, ...; a folded negative literal is `- atom`
+        v = node.value
+        r = ('atom', names['__numbers__'].get(abs(v), str(v)))
+        if v < 0:
+            r = ('neg', r)
     elif isinstance(node, BetweenOperation):
         xs = [shape_of_ast(a, names) for a in node.args]
         if any(x is None for x in xs):
@@ -488,6 +495,42 @@ def run(tier, seed, replay=None):
                         ctxs = [CONTEXTS[rng.randrange(len(CONTEXTS))]]
                     for cname, tmpl, getter in ctxs:
                         cases.append((cname, tmpl, getter, variant))
+            # grouping must not depend on the kind of the operands: the same expression over numeric literals groups like the one
+            # over identifiers
+            sample = cases if len(cases) <= 400 else rng.sample(cases, 400)
+            nnum = 0
+            rep_num = 0
+            for cname, tmpl, getter, e in sample:
+                etext = text_of(e)
+                letters = sorted(set(re.findall(r'\bc\d+\b', etext)))
+                if not letters:
+                    continue
+                num_of = {l: 101 + i for i, l in enumerate(letters)}
+                ntext = re.sub(r'\bc\d+\b', lambda m: str(num_of[m.group(0)]), etext)
+                try:
+                    g_id = shape_of_ast(getter(parse_sql(tmpl.format(etext), dialect)), names)
+                    names_n = dict(names)
+                    names_n['__numbers__'] = {v: k for k, v in num_of.items()}
+                    g_num = shape_of_ast(getter(parse_sql(tmpl.format(ntext), dialect)), names_n)
+                except Exception:
+                    continue
+                if g_id is None or g_num is None:
+                    continue
+                nnum += 1
+                evaluations += 1
+                def dneg(x):
+                    # the parser folds the sign into a numeric literal, so `- - 5` is the literal 5: double negations are dropped
+                    if not isinstance(x, tuple):
+                        return x
+                    if x[0] == 'neg' and isinstance(x[1], tuple) and x[1][0] == 'neg':
+                        return dneg(x[1][1])
+                    return (x[0],) + tuple(dneg(y) for y in x[1:])
+                if dneg(strip_par(g_id)) != dneg(strip_par(g_num)) and rep_num < 3:
+                    rep_num += 1
+                    R.violation({'dialect': dialect, 'context': cname, 'sql': tmpl.format(ntext), 'the_same_over_identifiers': tmpl.format(etext),
+                                 'grouping_over_numbers': text_of(paren_full(strip_par(g_num))), 'grouping_over_identifiers': text_of(paren_full(strip_par(g_id))),
+                                 'what': 'the grouping of an expression depends on whether its operands are identifiers or numeric literals'})
+            stats.setdefault(dialect, {})['numeric_operand_cases'] = nnum
             rows = []
             idnum = json.loads((GEN / f'Tbl_{dialect}.json').read_text())['num']
             for cname, tmpl, getter, e in cases:
